@@ -27,7 +27,7 @@ var c06Pages = []string{
 
 func init() {
 	register(&Prop{
-		ID: "C06",
+		ID:   "C06",
 		Rule: "G-article pages in which every URL-carrying attribute (a[href] in paragraphs, headings, list items, quotes, captions, table cells, link clusters; img src/srcset, lazy data-src, picture source srcset, figure images incl. noscript-hoisted ones, video src/poster, source/track src) is a reference of a random form {path-relative, ./, ../, root-relative, scheme-relative, query-only, absolute, fragment-only, data:, javascript:, unparseable} with a unique id; 5 page URLs (file-style, directory-style with trailing slash, with query, with fragment, https with both). Each URL found in Result.Node (outside placeholders) and in ContentImages is matched by id with the value expected by construction. Non-trivial = a checked URL; distinct = distinct (form, carrier attribute, output path, page-URL kind).",
 		Assumptions: []string{
 			"expected values come from an independent RFC 3986 section 5.2 resolution written for exactly the generated forms",
